@@ -373,14 +373,14 @@ theorem diff_mv (l : List Str) :
     have e2 : (x != ofString "metadata_version") = true := by simpa using h
     simp [e1, e2]
 
-theorem strsOf_strs (l : List Str) : PySet.strsOf (l.map .str) = some l := by
+theorem mf_strsOf_strs (l : List Str) : PySet.strsOf (l.map .str) = some l := by
   induction l with
   | nil => rfl
   | cons x xs ih => simp [PySet.strsOf, ih]
 
-theorem sorted_strs (l : List Str) :
+theorem mf_sorted_strs (l : List Str) :
     sorted_key_str (PyRx.mkSet "frozenset" (l.map .str)) = .ok (.list ((sortBy strLe l).map .str)) := by
-  simp [sorted_key_str, PySet.sorted_, PyRx.mkSet, PyRx.setItems, strsOf_strs]
+  simp [sorted_key_str, PySet.sorted_, PyRx.mkSet, PyRx.setItems, mf_strsOf_strs]
 
 /-! membership and duplicates of `keyList` -/
 
@@ -667,7 +667,7 @@ theorem Metadata.from_raw_eq_model (o : Meta.Oracle) (data : Meta.Dict) (validat
       have hga : getattr (.obj "Metadata" fs1) "_raw" = .ok (.dict (rawD d1)) := by simp [getattr, hlr1]
       have hks : sortBy strLe (keyList (d1.map (·.1))) = ksOf data :=
         ReqL.sortStr_perm_invariant (keyList_perm _ _ hnd1 hnd (keys_after data d1 st1 hlk1 hraw1))
-      simp only [hTe, okX_bind, hga, liftM_ok, set_of_keys_rawD, union_req, diff_req, sorted_strs, iterate_list, hks]
+      simp only [hTe, okX_bind, hga, liftM_ok, set_of_keys_rawD, union_req, diff_req, mf_sorted_strs, iterate_list, hks]
       refine loop_sim_k o age (ksOf data)
         (fun s st errs => ∃ v e fmv fa fld ins, s = (.list (errs.map ofInvalid), v, e, fmv, fa, fld, ins) ∧
           InstRel ins st ∧ RawSub data st) _ _ (fun r => OutcomeRel r _) ?_ _ st1 errs0
@@ -957,7 +957,7 @@ theorem forIn_append_sim (ks : List Str) (f : PyVal → PyVal → MX (ForInStep 
   | nil => simp
   | cons k ks ih => simp only [List.map_cons, List.forIn_cons, hstep, okX_bind, ih, List.append_assoc, List.cons_append, List.nil_append]
 
-theorem unpack2_tuple (a b : PyVal) : unpack2 (.tuple [a, b]) = .ok (a, b) := by rfl
+theorem mf_unpack2_tuple (a b : PyVal) : unpack2 (.tuple [a, b]) = .ok (a, b) := by rfl
 theorem dict_keys_dict (kvs : List (PyVal × PyVal)) : dict_keys (.dict kvs) = .ok (.iter (kvs.map (·.1))) := by rfl
 theorem dict_contains_str (kvs : List (PyVal × PyVal)) (k : Str) :
     dict_contains (.dict kvs) (.str k) = .ok (dictLookup kvs (.str k)).isSome := by rfl
@@ -994,7 +994,7 @@ theorem Metadata.from_email_eq_model (o : Meta.Oracle) (ext : PyRt.Oracle) (d : 
   have hmain := Metadata.from_raw_eq_model o raw validate hnd hw hs hesc
   have hne := fromRaw_group_ne o (ksOf raw) raw validate
   unfold Gen.PySrc.Metadata.from_email Meta.fromEmail
-  simp only [ext_call, hparse, liftM_ok, okX_bind, unpack2_tuple, from_raw_congr ext (extOf6 o) hext, truthy_bool]
+  simp only [ext_call, hparse, liftM_ok, okX_bind, mf_unpack2_tuple, from_raw_congr ext (extOf6 o) hext, truthy_bool]
   generalize Gen.PySrc.Metadata.from_raw (extOf6 o) (ofDict raw) (.bool validate) = r at hmain ⊢
   generalize Meta.fromRaw o (ksOf raw) raw validate = out at hmain hgrp hne ⊢
   cases validate with
